@@ -26,6 +26,10 @@ def boot():
         d = os.path.join(REPO, "moclo-{}".format(ext))
         moclo.kits.__path__.append(os.path.join(d, "moclo", "kits"))
         moclo.registry.__path__.append(os.path.join(d, "moclo", "registry"))
+    import warnings
+    from Bio import BiopythonParserWarning
+
+    warnings.filterwarnings("ignore", category=BiopythonParserWarning)
     _done = True
 
 
